@@ -91,56 +91,80 @@ func TestC19(t *testing.T) {
 		})
 	}
 
-	checkHeavy := func(caseID string, m bool, ro, le uint32, rnd uint64) {
+	type triple struct {
+		m      bool
+		ro, le uint32
+		rnd    uint64
+	}
+	// checkHeavy pushes a batch of 1..4 claims with different global indexes through every
+	// consumer at once (a certificate / prover request carries several imported exits)
+	checkHeavy := func(caseID string, batch []triple) {
 		if !r.Only(caseID) {
 			return
 		}
-		sc := map[string]any{"mainnet": m, "rollup": ro, "leaf": le}
+		sc := map[string]any{"batch": fmt.Sprintf("%+v", batch)}
 		guard(r, caseID, sc, func() {
-			want := ref.GlobalIndex(m, ro, le)
-			wantRo := ro
-			if m {
-				wantRo = 0
-			}
-			claim := bridgesync.Claim{
-				GlobalIndex:        new(big.Int).Set(want),
-				OriginNetwork:      uint32(rnd),
-				OriginAddress:      common.BigToAddress(new(big.Int).SetUint64(rnd)),
-				DestinationAddress: common.BigToAddress(new(big.Int).SetUint64(rnd * 3)),
-				Amount:             new(big.Int).SetUint64(rnd),
-				DestinationNetwork: 7,
-				Metadata:           []byte{byte(rnd)},
-			}
-			ibe, err := bf.ConvertClaimToImportedBridgeExit(claim)
-			if err != nil {
-				r.Violation("C19:certificate:convert-error", caseID, err.Error(), sc)
-				return
-			}
-			if ibe.GlobalIndex.MainnetFlag != m || ibe.GlobalIndex.RollupIndex != wantRo || ibe.GlobalIndex.LeafIndex != le {
-				r.Violation("C19:certificate:struct", caseID, fmt.Sprintf("certificate carries %s for 0x%x", ibe.GlobalIndex.String(), want), sc)
+			var claims []bridgesync.Claim
+			var ibes []*agglayertypes.ImportedBridgeExit
+			var wants []*big.Int
+			for _, tr := range batch {
+				want := ref.GlobalIndex(tr.m, tr.ro, tr.le)
+				wantRo := tr.ro
+				if tr.m {
+					wantRo = 0
+				}
+				claim := bridgesync.Claim{
+					GlobalIndex:        new(big.Int).Set(want),
+					OriginNetwork:      uint32(tr.rnd),
+					OriginAddress:      common.BigToAddress(new(big.Int).SetUint64(tr.rnd)),
+					DestinationAddress: common.BigToAddress(new(big.Int).SetUint64(tr.rnd * 3)),
+					Amount:             new(big.Int).SetUint64(tr.rnd),
+					DestinationNetwork: 7,
+					Metadata:           []byte{byte(tr.rnd)},
+				}
+				ibe, err := bf.ConvertClaimToImportedBridgeExit(claim)
+				if err != nil {
+					r.Violation("C19:certificate:convert-error", caseID, err.Error(), sc)
+					return
+				}
+				if ibe.GlobalIndex.MainnetFlag != tr.m || ibe.GlobalIndex.RollupIndex != wantRo || ibe.GlobalIndex.LeafIndex != tr.le {
+					r.Violation("C19:certificate:struct", caseID, fmt.Sprintf("certificate carries %s for 0x%x", ibe.GlobalIndex.String(), want), sc)
+				}
+				claims = append(claims, claim)
+				ibes = append(ibes, ibe)
+				wants = append(wants, want)
 			}
 			// every other consumer derives its value from that struct
-			for name, got := range c19Consumers(r, caseID, sc, claim, ibe) {
-				if got == nil {
-					continue
+			for name, gots := range c19Consumers(r, caseID, sc, claims, ibes) {
+				for k, got := range gots {
+					if got.Cmp(wants[k]) != 0 {
+						r.Violation("C19:consumer:"+name, caseID, fmt.Sprintf("%s carries 0x%x for claim %d of %d, the claim's global index is 0x%x", name, got, k, len(wants), wants[k]), sc)
+					}
 				}
-				if got.Cmp(want) != 0 {
-					r.Violation("C19:consumer:"+name, caseID, fmt.Sprintf("%s carries 0x%x, claim's global index is 0x%x", name, got, want), sc)
-				}
-				r.Cover(fmt.Sprintf("consumer/%s/m=%v", name, m))
+				r.Cover(fmt.Sprintf("consumer/%s/batch=%d", name, len(batch)))
 			}
-			r.Eval(fmt.Sprintf("heavy/m=%v/ro=%d/le=%d", m, cls(wantRo), cls(le)))
+			tr := batch[0]
+			wr := tr.ro
+			if tr.m {
+				wr = 0
+			}
+			r.Eval(fmt.Sprintf("heavy/m=%v/ro=%d/le=%d/batch=%d", tr.m, cls(wr), cls(tr.le), len(batch)))
 		})
 	}
 
 	// boundary set, exhaustive
 	n := 0
+	var pending []triple
 	for _, m := range []bool{false, true} {
 		for _, ro := range bnd {
 			for _, le := range bnd {
 				id := fmt.Sprintf("bnd/%v/%d/%d", m, ro, le)
 				checkLight(id, m, ro, le)
-				checkHeavy(id, m, ro, le, uint64(ro)*31+uint64(le))
+				pending = append(pending, triple{m, ro, le, uint64(ro)*31 + uint64(le)})
+				if len(pending) == 1+n%4 {
+					checkHeavy(id, pending)
+					pending = nil
+				}
 				n++
 			}
 		}
@@ -166,9 +190,11 @@ func TestC19(t *testing.T) {
 	parallel(workers, workers, func(w int) {
 		g := rng(r, "heavy", w)
 		for i := 0; i < perH; i++ {
-			m := g.Intn(2) == 0
-			ro, le := randU32(g), randU32(g)
-			checkHeavy(fmt.Sprintf("heavy/%d/%d", w, i), m, ro, le, g.Uint64())
+			var batch []triple
+			for k := 1 + g.Intn(4); k > 0; k-- {
+				batch = append(batch, triple{g.Intn(2) == 0, randU32(g), randU32(g), g.Uint64()})
+			}
+			checkHeavy(fmt.Sprintf("heavy/%d/%d", w, i), batch)
 		}
 	})
 	g := rng(r, "sample", 0)
